@@ -247,3 +247,229 @@ Theorem write_read_roundtrip s p b perm s' :
   sane_for s p -> write_file m_step s p b perm = (s', ROk) ->
   snd (read_file m_step s' p) = RData b None.
 Proof. intros Hs H. apply read_file_holds. eapply write_file_holds; eassumption. Qed.
+
+(* ------------------------------------------------------------------------------------ *)
+(** * WriteReader *)
+
+Lemma io_pieces_concat fuel : forall c, concat (io_pieces fuel c) = c.
+Proof.
+  induction fuel as [|fuel IH]; intros c; cbn [io_pieces].
+  - cbn. apply app_nil_r.
+  - destruct (Nat.leb (length c) (Z.to_nat io_copy_buf)); [cbn; apply app_nil_r|].
+    cbn [concat]. rewrite IH. apply firstn_skipn.
+Qed.
+
+Lemma io_reads_concat chunks : concat (io_reads chunks) = concat chunks.
+Proof.
+  unfold io_reads. induction chunks as [|c r IH]; [reflexivity|].
+  cbn [flat_map concat]. now rewrite concat_app, io_pieces_concat, IH.
+Qed.
+
+(* io.Copy into a handle positioned at the end appends everything the reader delivers *)
+Lemma io_copy_mem p h f reads : forall s data,
+  wr_inv s p h f data (zlen data) ->
+  exists s2, io_copy m_step s h reads = (s2, ROk) /\
+             wr_inv s2 p h f (data ++ concat reads) (zlen (data ++ concat reads)) /\
+             (forall k, lookup s2 k = lookup s k) /\ length (mheap s2) = length (mheap s).
+Proof.
+  induction reads as [|b r IH]; intros s data Hw.
+  - cbn [io_copy concat]. rewrite app_nil_r. exists s. now repeat split.
+  - destruct b as [|x b].
+    + cbn [io_copy concat app]. now apply IH.
+    + cbn [io_copy]. destruct (hwrite_append _ _ _ _ _ (x :: b) Hw) as [s1 [E1 [Hw1 [Hl1 Hh1]]]].
+      rewrite E1.
+      assert (E : (zlen (x :: b) <? 0) || (zlen (x :: b) <? zlen (x :: b)) = false).
+      { rewrite Z.ltb_irrefl, orb_false_r. apply Z.ltb_ge, zlen_nonneg. }
+      rewrite E, Z.ltb_irrefl.
+      destruct (IH _ _ Hw1) as [s2 [E2 [Hw2 [Hl2 Hh2]]]]. exists s2.
+      cbn [concat]. rewrite app_assoc. split; [exact E2|]. split; [exact Hw2|]. split.
+      * intros k. now rewrite Hl2, Hl1.
+      * now rewrite Hh2, Hh1.
+Qed.
+
+Definition parent_present (s : mst) (name : str) : Prop :=
+  exists d dn, lookup s (parent_key name) = Some d /\ get_node s d = Some dn /\ parent_key name <> name.
+
+(* MemMapFs.Create: an existing regular file is truncated in place; otherwise (absent, or a
+   directory!) a new file node is bound to the name *)
+Lemma create_for_write s p s1 r :
+  parent_present s (normalize_path p) -> m_step s (Create p) = (s1, r) ->
+  exists f, r = RHandle (length (mhandles s)) /\ wr_inv s1 p (length (mhandles s)) f [] 0 /\
+            (forall k x, lookup s k = Some x -> k <> normalize_path p -> lookup s1 k = Some x) /\
+            (forall x n, get_node s x = Some n -> exists n', get_node s1 x = Some n').
+Proof.
+  intros [d [dn [Hp [Hd Hne]]]] H. rewrite m_step_bump in H. cbn [m_step_raw] in H. unfold m_create in H.
+  set (name := normalize_path p) in *.
+  set (ex := match lookup s name with
+             | Some f => match get_node s f with Some n => if ndir n then None else Some f | None => None end
+             | None => None end) in *.
+  destruct ex as [f|] eqn:Eex.
+  - (* truncate in place *)
+    unfold ex in Eex. destruct (lookup s name) as [f0|] eqn:El; [|discriminate].
+    destruct (get_node s f0) as [n|] eqn:En; [|discriminate]. destruct (ndir n) eqn:End; [discriminate|].
+    inversion Eex; subst f0; clear Eex.
+    unfold alloc_handle in H. cbn [fst snd] in H. inversion H; subst s1 r; clear H.
+    exists f. rewrite upd_node_handles. split; [reflexivity|]. split; [|split].
+    + exists (with_mtime (mclock s) (with_data [] n)).
+      unfold lookup, get_node. cbn [bump mdata mheap mhandles]. rewrite upd_node_data.
+      repeat split; try assumption.
+      * exact (get_upd_same _ _ _ _ En).
+      * apply nth_error_snoc.
+    + intros k x Hk _. unfold lookup. cbn [bump mdata]. now rewrite upd_node_data.
+    + intros x n0 Hx. unfold get_node. cbn [bump mheap].
+      destruct (Nat.eq_dec f x) as [->|Hfx].
+      * eexists. exact (get_upd_same _ _ _ _ Hx).
+      * exists n0. rewrite <- Hx. exact (get_upd_other _ _ _ _ Hfx).
+  - rewrite m_create_node_attach in H.
+    destruct (attach_parent_present s name (new_file name (mclock s)) 0 d dn eq_refl Hp Hd Hne)
+      as [Hmd [Hhd [Hck [Hlen [Hf [Hdn Hoth]]]]]].
+    set (f := length (mheap s)) in *. set (s3 := attach s name (new_file name (mclock s)) 0) in *.
+    unfold alloc_handle in H. cbn [fst snd] in H. inversion H; subst s1 r; clear H.
+    exists f. rewrite Hhd. split; [reflexivity|]. split; [|split].
+    + exists (new_file name (mclock s)). unfold lookup, get_node. cbn [bump mdata mheap mhandles].
+      fold name. rewrite Hmd, alist_get_set_same. repeat split; try reflexivity.
+      * exact Hf.
+      * apply nth_error_snoc.
+    + intros k x Hk Hkn. unfold lookup. cbn [bump mdata]. rewrite Hmd.
+      rewrite alist_get_set_other by exact Hkn. exact Hk.
+    + intros x n0 Hx. unfold get_node. cbn [bump mheap]. fold (get_node s3 x).
+      destruct (Nat.eq_dec x d) as [->|Hxd]; [eexists; exact Hdn|].
+      assert (Hxf : x <> f) by (apply get_node_lt in Hx; unfold f; lia).
+      exists n0. rewrite Hoth by assumption. exact Hx.
+Qed.
+
+Lemma get_node_of_lt s x : (x < length (mheap s))%nat -> exists n, get_node s x = Some n.
+Proof.
+  intros H. unfold get_node. destruct (nth_error (mheap s) x) eqn:E; [now eexists|].
+  apply nth_error_None in E. lia.
+Qed.
+
+Lemma m_mkdir_attach s D perm : lookup s (normalize_path D) = None ->
+  m_mkdir s D perm =
+  set_file_mode (attach s (normalize_path D)
+                   (with_mode (Z.lor mode_dir (Z.land perm chmod_bits)) (new_dir (normalize_path D) (mclock s)))
+                   (Z.land perm chmod_bits))
+                (normalize_path D) (Z.lor (Z.land perm chmod_bits) mode_dir).
+Proof. intros H. unfold m_mkdir. rewrite H. reflexivity. Qed.
+
+(* MemMapFs.MkdirAll(D): always nil; afterwards D is present; nothing that was present is lost.
+   (On an existing path — directory or not — nothing changes at all: see mkdirall_existing.) *)
+Lemma mkdirall_result s D perm s1 r :
+  mem_wf s -> m_step s (MkdirAll D perm) = (s1, r) ->
+  r = ROk /\ (exists d dn, lookup s1 (normalize_path D) = Some d /\ get_node s1 d = Some dn) /\
+  (forall k x, lookup s k = Some x -> lookup s1 k = Some x) /\
+  (length (mheap s) <= length (mheap s1))%nat.
+Proof.
+  intros Hwf H. rewrite m_step_bump in H. cbn [m_step_raw] in H. unfold m_mkdirall in H.
+  set (name := normalize_path D) in *.
+  destruct (lookup s name) as [d|] eqn:El.
+  - unfold m_mkdir in H. fold name in H. rewrite El in H. cbn [ek EW errk_eqb fst snd] in H. inversion H; subst s1 r; clear H.
+    split; [reflexivity|]. split; [|split; [now intros | reflexivity]].
+    destruct (get_node_of_lt s d (Hwf _ _ El)) as [dn Hdn]. exists d, dn. now split.
+  - fold name in El. rewrite (m_mkdir_attach s D perm El) in H. fold name in H.
+    set (nd := with_mode _ _) in H.
+    destruct (attach_general s name nd (Z.land perm chmod_bits)) as [Hl [Hlt [Hoth [Hhd Hck]]]].
+    set (s3 := attach s name nd (Z.land perm chmod_bits)) in *. set (f := length (mheap s)) in *.
+    rewrite (set_file_mode_found s3 name _ f) in H by (unfold name; rewrite normalize_idempotent; exact Hl).
+    cbn [fst snd] in H. inversion H; subst s1 r; clear H.
+    split; [reflexivity|]. split; [|split].
+    + destruct (get_node_of_lt s3 f Hlt) as [n Hn]. exists f. eexists.
+      unfold lookup, get_node. cbn [bump mdata mheap]. rewrite upd_node_data. split; [exact Hl|].
+      exact (get_upd_same _ _ _ _ Hn).
+    + intros k x Hk. unfold lookup. cbn [bump mdata]. rewrite upd_node_data. apply Hoth; [|exact Hk].
+      intros ->. congruence.
+    + cbn [bump mheap]. rewrite upd_node_heap_length. lia.
+Qed.
+
+(* MkdirAll on a path that exists changes nothing the filesystem holds *)
+Lemma mkdirall_existing s D perm : lookup s (normalize_path D) <> None ->
+  snd (m_step s (MkdirAll D perm)) = ROk /\ fs_view (fst (m_step s (MkdirAll D perm))) = fs_view s.
+Proof.
+  intros H. rewrite m_step_bump. cbn [m_step_raw fst snd]. unfold m_mkdirall, m_mkdir.
+  destruct (lookup s (normalize_path D)); [|congruence]. cbn [ek EW errk_eqb fst snd]. now split.
+Qed.
+
+Theorem write_reader_roundtrip s p chunks s' :
+  mem_wf s -> lookup s s_slash <> None -> good_seg (snd (path_split p)) ->
+  write_reader m_step s p chunks = (s', ROk) ->
+  snd (read_file m_step s' p) = RData (concat chunks) None /\
+  exists d dn, lookup s' (normalize_path (fst (path_split p))) = Some d /\ get_node s' d = Some dn.
+Proof.
+  intros Hwf Hroot Hb H. unfold write_reader in H.
+  destruct (parent_key_by_split p Hb) as [Hpk Hpne].
+  set (D := fst (path_split p)) in *. set (name := normalize_path p) in *.
+  (* the state after the optional MkdirAll: the directory part is present *)
+  assert (Hpre : exists s1, io_create_copy m_step s1 p chunks = (s', ROk) /\
+                 exists d dn, lookup s1 (normalize_path D) = Some d /\ get_node s1 d = Some dn).
+  { destruct (is_empty D) eqn:ED.
+    - apply is_empty_true in ED. exists s. split; [exact H|]. rewrite ED.
+      change (normalize_path []) with s_slash. destruct (lookup s s_slash) as [r0|] eqn:Er; [|congruence].
+      destruct (get_node_of_lt s r0 (Hwf _ _ Er)) as [rn Hrn]. now exists r0, rn.
+    - destruct (m_step s (MkdirAll D 511)) as [s1 r1] eqn:E1.
+      destruct (mkdirall_result _ _ _ _ _ Hwf E1) as [-> [Hd _]]. exists s1. now split. }
+  clear H. destruct Hpre as [s1 [H [d [dn [Hd Hdn]]]]]. unfold io_create_copy in H.
+  destruct (m_step s1 (Create p)) as [s2 r2] eqn:E2.
+  assert (Hpp : parent_present s1 name).
+  { exists d, dn. rewrite Hpk. split; [exact Hd|]. split; [exact Hdn|]. rewrite <- Hpk. exact Hpne. }
+  destruct (create_for_write _ _ _ _ Hpp E2) as [f [-> [Hw [Hlk Hval]]]].
+  destruct (io_copy_mem p _ f (io_reads chunks) _ _ Hw) as [s3 [E3 [Hw3 [Hl3 Hh3]]]].
+  rewrite E3 in H. cbn [app] in Hw3. rewrite io_reads_concat in Hw3.
+  destruct (hclose_rw _ _ _ _ _ _ Hw3) as [s4 [E4 [Hh4 [Hl4 Hlen4]]]]. rewrite E4 in H.
+  inversion H; subst s'. split; [now apply read_file_holds|].
+  assert (Hd2 : lookup s2 (normalize_path D) = Some d) by (apply Hlk; [exact Hd | rewrite <- Hpk; exact Hpne]).
+  destruct (Hval _ _ Hdn) as [dn2 Hdn2].
+  exists d. destruct (get_node_of_lt s4 d) as [dn4 Hdn4].
+  { rewrite Hlen4, Hh3. now apply get_node_lt in Hdn2. }
+  exists dn4. split; [|exact Hdn4]. now rewrite Hl4, Hl3.
+Qed.
+
+(* ------------------------------------------------------------------------------------ *)
+(** * SafeWriteReader *)
+
+Definition exists_at (s : mst) (p : str) : Prop :=
+  exists f n, lookup s (normalize_path p) = Some f /\ get_node s f = Some n.
+
+Lemma stat_succeeds_iff s p : (exists fi, snd (m_step s (Stat p)) = RInfo fi) <-> exists_at s p.
+Proof.
+  rewrite m_step_bump. cbn [m_step_raw snd]. unfold m_stat, exists_at. split.
+  - intros [fi H]. destruct (lookup s (normalize_path p)) as [f|]; [|discriminate].
+    destruct (get_node s f) as [n|] eqn:En; [|discriminate]. now exists f, n.
+  - intros [f [n [-> ->]]]. now eexists.
+Qed.
+
+Lemma exists_at_view s t p : fs_view s = fs_view t -> exists_at s p -> exists_at t p.
+Proof.
+  unfold fs_view, exists_at, lookup, get_node. intros E. inversion E as [[E1 E2]]. now rewrite E1, E2.
+Qed.
+
+Lemma stat_view s p : fs_view (fst (m_step s (Stat p))) = fs_view s.
+Proof.
+  rewrite m_step_bump. cbn [m_step_raw fst]. unfold m_stat.
+  destruct (lookup s (normalize_path p)) as [f|]; [|reflexivity]. now destruct (get_node s f).
+Qed.
+
+Theorem safe_write_preserves s p chunks :
+  exists_at s p ->
+  (fst (path_split p) = [] \/ lookup s (normalize_path (fst (path_split p))) <> None) ->
+  (exists e, snd (safe_write_reader m_step s p chunks) = RErr e) /\
+  fs_view (fst (safe_write_reader m_step s p chunks)) = fs_view s.
+Proof.
+  intros Hex Hdir. unfold safe_write_reader.
+  set (D := fst (path_split p)) in *.
+  assert (Hpre : exists s1, (if is_empty D then (s, None)
+                    else match m_step s (MkdirAll D 511) with
+                         | (s1, ROk) => (s1, None)
+                         | (s1, RErr e) => (s1, Some (RErr e))
+                         | (s1, _) => (s1, Some RPanic)
+                         end) = (s1, None) /\ fs_view s1 = fs_view s).
+  { destruct (is_empty D) eqn:ED; [exists s; now split|].
+    destruct Hdir as [Hd|Hd]; [rewrite Hd in ED; discriminate|].
+    destruct (mkdirall_existing s D 511 Hd) as [Hr Hv].
+    destruct (m_step s (MkdirAll D 511)) as [s1 r1]. cbn [fst snd] in Hr, Hv. subst r1. now exists s1. }
+  destruct Hpre as [s1 [-> Hv1]].
+  assert (Hex1 : exists_at s1 p) by (eapply exists_at_view; [symmetry; exact Hv1 | exact Hex]).
+  unfold io_exists. pose proof (stat_view s1 p) as Hv2.
+  apply stat_succeeds_iff in Hex1 as [fi Hfi].
+  destruct (m_step s1 (Stat p)) as [s2 r2]. cbn [fst snd] in Hv2, Hfi. subst r2. cbn [fst snd].
+  split; [now eexists | now rewrite Hv2].
+Qed.
